@@ -91,6 +91,9 @@ def run(ctx):
                 roles.setdefault('removal', m)
     R.ob('C06.abort', ('AbortHandle::abort', 'roles'), set(roles) == {'drop', 'expiry', 'removal'}, 'the three abort sites are the cancel removal, the expiry and Drop', [m.loc(m.d) for m in roles.values()])
     R.count('functions_analysed', len(table.methods) + 2)
+    # no removal leaves its timer armed: a left-over timer would fire later on whatever request then uses the id and abort it before its own deadline
+    from .C11 import removal_pairing
+    removal_pairing(ctx, 'C06.timers', 'server')
     # source coverage while blocked (E-SHAPE): known finding D5 for limiter chains
     coverage(ctx, 'C06.cover', ('T',))
     # expiry is processed before anything is written in an activation of the request stream
